@@ -177,6 +177,13 @@ def run(tier, seed, replay=None):
             if v[0] != 'Id':
                 key = (v[0][0], show(v))
                 values[key] = values.get(key, 0) + 1
+        for p, v in binds:
+            if v[0] == 'Id':
+                # the identity-mapped parameter is one more candidate for the value that spells it
+                for sort, kind in (('T', 'TPath'), ('E', 'EPath')):
+                    key = (sort, '(%s "" (ONone "") (Path "" (Seg "%s" (ANone ""))))' % (kind, p))
+                    if key in values:
+                        values[key] += 1
         expected_n = count_choices(sx.parse(bounded), values) * count_choices(sx.parse(trait), values)
         prop_fail = None
         if m['wf'] != 'true':
